@@ -1,7 +1,7 @@
 CONSTANTS
  Dev = {}
  Family = "mid"
- MaxMid = 11
+ MaxMid = 10
  MaxTiny = 7
  CarryLens = {}
 INIT Init
